@@ -57,14 +57,17 @@ func c10Exec(path histPath, alphabet []string) func(hist []int) (string, string,
 			restore := tally.VerifSetNow(func() time.Time { return e.now })
 			defer restore()
 			tags := map[string]string{"r": "1"}
+			// a sanitizer is configured; the timer "u" of the subscope has a raw name that it rewrites ("u!x" -> "u_x")
+			okc := tally.ValidCharacters{Ranges: tally.AlphanumericRange, Characters: []rune{'_', '.'}}
+			san := &tally.SanitizeOptions{NameCharacters: okc, KeyCharacters: okc, ValueCharacters: okc, ReplacementCharacter: '_'}
 			switch path {
 			case pathSnapshot:
-				e.ts = tally.VerifNewTestScopeOpts(tally.ScopeOptions{Prefix: "p", Tags: tags}, 1)
+				e.ts = tally.VerifNewTestScopeOpts(tally.ScopeOptions{Prefix: "p", Tags: tags, SanitizeOptions: san}, 1)
 				e.root = e.ts
 			default:
 				e.rec = &Recorder{NoPoints: true}
 				o := scopeOpts(e.rec, path == pathCached, false)
-				o.Prefix, o.Tags = "p", tags
+				o.Prefix, o.Tags, o.SanitizeOptions = "p", tags, san
 				e.root, _ = tally.VerifNewRootScope(o, 0, 1)
 			}
 			e.sub = e.root.SubScope("s").Tagged(map[string]string{"k": "v"})
@@ -79,7 +82,7 @@ func c10Exec(path histPath, alphabet []string) func(hist []int) (string, string,
 				case "sub.t":
 					return e.sub, "t", "p.s.t", subTags
 				default:
-					return e.sub, "u", "p.s.u", subTags
+					return e.sub, "u!x", "p.s.u_x", subTags
 				}
 			}
 			// expectTimer checks that exactly one timer entry with (name,tags,d) was appended since mark
